@@ -20,6 +20,20 @@ def gen_case(rng, tier):
     stmts = P.gen_program(rng, cfg, allow_bad=0.02,
                           weights={'org': 5, 'fill': 3, 'zerountil': 1.5, 'label': 1, 'const': 0.5, 'mute': 0.8, 'data': 4,
                                    'instr': 3, 'memzone': 1.5, 'createZone': 0.8, 'macro': 2})
+    if rng.random() < 0.25:
+        # a line that emits nothing, placed between (in address order) a long line and a line that starts inside it - or just
+        # behind it: the empty line neither hides the collision nor causes one
+        hi = (1 << cfg['bits']) - 1
+        n = rng.randint(3, 9)
+        a = rng.randint(0, max(0, hi - 2 * n - 4))
+        k = rng.choice([rng.randint(1, n - 1), rng.randint(1, n - 1), n, n + 1])
+        empty = rng.choice([{'k': 'fill', 'cnt': ('num', 0), 'val': ('num', 7)}, {'k': 'zerountil', 'a': ('num', max(0, a + k - 1))},
+                            {'k': 'fill', 'cnt': ('bin', '-', ('num', 2), ('num', 2)), 'val': ('num', 0)}])
+        gadget = [{'k': 'org', 'e': ('num', a)}, {'k': 'fill', 'cnt': ('num', n), 'val': ('num', rng.randint(1, 255))},
+                  {'k': 'org', 'e': ('num', a + k)}, empty, {'k': 'data', 'w': 1, 'vals': [('num', 0xAA), ('num', 0xBB)]}]
+        if rng.random() < 0.3:
+            gadget = gadget[2:] + gadget[:2]          # source order is irrelevant
+        stmts = stmts + gadget
     return {'cfg': cfg, 'files': [stmts], 'start': 0, 'end': None, 'fill': 0, 'seed': rng.randrange(1 << 30)}
 
 
